@@ -30,7 +30,7 @@ import (
 )
 
 var st = stat.New("C20",
-	"Exit path. Case = {1..6 logging goroutines each logging 1..60 numbered entries through two loggers whose writers append one length-framed record per Write to a file, per-Write delay 0..3 ms with a total backlog <= 300 ms (well inside the 1 s flush timeout); after every logging call has returned, 1..4 goroutines under `defer tars.CheckPanic()` panic 0..60 ms apart with error / string / struct panic values}. The child process must end through CheckPanic's exit. Oracle over the file: every entry is present exactly once on the file of its logger, one entry per record, entries of one goroutine in logging order. Non-trivial = >= 2 panicking goroutines or a backlog of >= 50 ms at the first panic. Distinct = distinct case JSON.",
+	"Exit path. Case = {1..6 logging goroutines each logging 1..60 numbered entries through two loggers whose writers append one length-framed record per Write to a file, per-Write delay 0..3 ms with a total backlog <= 300 ms (well inside the 1 s flush timeout); after every logging call has returned, 1..4 goroutines under `defer tars.CheckPanic()` panic 0..60 ms apart with error / string / struct panic values - or (a fifth of the cases) the process dies from a panic inside tars.Run() itself (server config naming missing TLS key files), where Run's deferred flush has to save the entries}. The child process must end through CheckPanic's exit. Oracle over the file: every entry is present exactly once on the file of its logger, one entry per record, entries of one goroutine in logging order. Non-trivial = >= 2 panicking goroutines or a backlog of >= 50 ms at the first panic. Distinct = distinct case JSON.",
 	"the child is this test binary re-executed in worker mode; its exit status must be non-zero (os.Exit(-1) in CheckPanic)")
 
 type Case struct {
@@ -38,6 +38,10 @@ type Case struct {
 	WriteDelayUs int    `json:"write_delay_us"`
 	PanicGapsMs  []int  `json:"panic_gaps_ms"` // one per panicking goroutine: delay after the logging finished
 	PanicKind    string `json:"panic_kind"`    // error | string | struct
+	// ViaRun: instead of goroutines under CheckPanic, the process dies from a panic inside
+	// tars.Run() itself (its configuration step rejects the server config: missing TLS key
+	// files); Run's deferred flush is what saves the entries then
+	ViaRun bool `json:"via_run,omitempty"`
 }
 
 func draw(rt *rapid.T) Case {
@@ -53,6 +57,7 @@ func draw(rt *rapid.T) Case {
 	if total*c.WriteDelayUs > 300000 {
 		c.WriteDelayUs = 300000 / total
 	}
+	c.ViaRun = rapid.IntRange(0, 4).Draw(rt, "viaRun") == 0
 	np := rapid.SampledFrom([]int{1, 2, 2, 2, 3, 4}).Draw(rt, "panickers")
 	for i := 0; i < np; i++ {
 		c.PanicGapsMs = append(c.PanicGapsMs, rapid.SampledFrom([]int{0, 0, 1, 5, 20, 60}).Draw(rt, "gap"))
@@ -125,6 +130,16 @@ func TestC20ExitChild(t *testing.T) {
 	wg.Wait()
 	// every logging call has returned: tell the parent, then crash
 	_ = os.WriteFile(filepath.Join(dir, "logged"), []byte("ok"), 0644)
+	if c.ViaRun {
+		cfg := filepath.Join(dir, "server.conf")
+		conf := "<tars>\n  <application>\n    <server>\n      app=Verif\n      server=C20x\n      key=" + filepath.Join(dir, "missing.key") +
+			"\n      cert=" + filepath.Join(dir, "missing.crt") + "\n    </server>\n  </application>\n</tars>\n"
+		_ = os.WriteFile(cfg, []byte(conf), 0644)
+		tars.ServerConfigPath = cfg
+		tars.Run() // panics while loading the configuration; Run's deferred flush runs first
+		fmt.Println("CHILD-ERROR tars.Run returned")
+		os.Exit(4)
+	}
 	for _, gap := range c.PanicGapsMs {
 		go func(gap int) {
 			defer tars.CheckPanic()
@@ -187,7 +202,13 @@ func run(c Case) *stat.Failure {
 	t0 := time.Now()
 	out, runErr := cmd.CombinedOutput()
 	took := time.Since(t0)
+	if c.ViaRun && !strings.Contains(string(out), "missing.key") && !strings.Contains(string(out), "missing.crt") && !strings.Contains(string(out), "CHILD-ERROR") {
+		return stat.Failf("harness-failure", "child was expected to die from the configuration panic inside tars.Run: %.400s", out)
+	}
 	if strings.Contains(string(out), "CHILD-ERROR") {
+		if strings.Contains(string(out), "tars.Run returned") {
+			return stat.Failf("harness-failure", "tars.Run accepted a server config with missing TLS files: %.300s", out)
+		}
 		if strings.Contains(string(out), "survived") {
 			return stat.Failf("no-exit", "the process did not exit although %d goroutine(s) panicked under CheckPanic", len(c.PanicGapsMs))
 		}
@@ -289,6 +310,7 @@ func TestC20Exit(t *testing.T) {
 		"two-panics-with-backlog":   {Entries: []int{60, 40}, WriteDelayUs: 2000, PanicGapsMs: []int{0, 20}, PanicKind: "error"},
 		"three-panics-same-instant": {Entries: []int{50}, WriteDelayUs: 3000, PanicGapsMs: []int{0, 0, 0}, PanicKind: "string"},
 		"single-panic":              {Entries: []int{30, 30, 30}, WriteDelayUs: 1000, PanicGapsMs: []int{5}, PanicKind: "struct"},
+		"panic-inside-run":          {Entries: []int{40, 20}, WriteDelayUs: 2000, PanicGapsMs: []int{0}, PanicKind: "error", ViaRun: true},
 	}
 	if stat.ReplayPath() == "" && os.Getenv("VERIF_ONLY") == "" {
 		stat.Pinned(t, st, "exit", pinned, func(c Case) *stat.Failure {
@@ -297,7 +319,11 @@ func TestC20Exit(t *testing.T) {
 		})
 	}
 	stat.Check(t, st, "exit", stat.N(40, 1500), draw, func(c Case) *stat.Failure {
-		st.CaseJSON(c, nontrivial(c), fmt.Sprintf("panickers-%d", len(c.PanicGapsMs)), "panic-value-"+c.PanicKind)
+		cls := []string{fmt.Sprintf("panickers-%d", len(c.PanicGapsMs)), "panic-value-" + c.PanicKind}
+		if c.ViaRun {
+			cls = []string{"panic-inside-tars-run"}
+		}
+		st.CaseJSON(c, nontrivial(c), cls...)
 		return run(c)
 	})
 }
